@@ -551,6 +551,77 @@ fn promotion_and_reducers() -> (Vec<(String, Tree)>, Vec<String>) {
     (ok, bad)
 }
 
+/// A vector-valued script expression with its value computed component-wise in
+/// f32, operands in source order
+#[derive(Clone)]
+struct VE {
+    script: String,
+    val: Vec<f32>,
+}
+
+fn vector_exprs(n: usize) -> Vec<VE> {
+    let ctor = if n == 2 { "vec2" } else { "vec3" };
+    let lit = |v: &[f32]| -> VE {
+        let parts: Vec<String> = v[..n].iter().map(|c| format!("{c:?}")).collect();
+        VE { script: format!("{ctor}({})", parts.join(", ")), val: v[..n].to_vec() }
+    };
+    let vecs = vec![lit(&[3.0, 4.0, 5.0]), lit(&[0.5, -2.0, 8.0])];
+    // scalars: integer and float spellings
+    let scalars: Vec<(String, f32)> = vec![("8".into(), 8.0), ("1.5".into(), 1.5), ("-3".into(), -3.0)];
+    type Op = (&'static str, bool, fn(f32, f32) -> f32);
+    let ops: Vec<Op> = vec![
+        ("+", true, |a, b| a + b),
+        ("-", true, |a, b| a - b),
+        ("*", true, |a, b| a * b),
+        ("/", true, |a, b| a / b),
+        ("min", false, |a: f32, b: f32| a.min(b)),
+        ("max", false, |a: f32, b: f32| a.max(b)),
+    ];
+    let apply = |op: &Op, a: &VE, b: &VE| -> VE {
+        let script = if op.1 { format!("({} {} {})", a.script, op.0, b.script) } else { format!("{}({}, {})", op.0, a.script, b.script) };
+        let val = (0..n)
+            .map(|i| {
+                let x = if a.val.len() == 1 { a.val[0] } else { a.val[i] };
+                let y = if b.val.len() == 1 { b.val[0] } else { b.val[i] };
+                (op.2)(x, y)
+            })
+            .collect();
+        VE { script, val }
+    };
+    let sc: Vec<VE> = scalars.iter().map(|(s, v)| VE { script: s.clone(), val: vec![*v] }).collect();
+    let mut d1: Vec<VE> = vec![];
+    for op in &ops {
+        for a in &vecs {
+            for b in &vecs {
+                d1.push(apply(op, a, b));
+            }
+            for s in &sc {
+                d1.push(apply(op, a, s));
+                d1.push(apply(op, s, a));
+            }
+        }
+    }
+    for a in &vecs {
+        d1.push(VE { script: format!("(-{})", a.script), val: a.val.iter().map(|c| -c).collect() });
+        d1.push(VE { script: format!("abs({})", a.script), val: a.val.iter().map(|c| c.abs()).collect() });
+    }
+    d1.push(VE { script: format!("sqrt({})", vecs[0].script), val: vecs[0].val.iter().map(|c| c.sqrt()).collect() });
+    // depth 2: every depth-1 vector as the left or right operand of every
+    // operator with a scalar and with a vector
+    let mut out = vecs.clone();
+    out.extend(d1.iter().cloned());
+    for op in &ops {
+        for e in &d1 {
+            for o in sc.iter().take(2).chain(vecs.iter().take(1)) {
+                out.push(apply(op, e, o));
+                out.push(apply(op, o, e));
+            }
+        }
+    }
+    out.retain(|e| e.val.iter().all(|c| c.is_finite()));
+    out
+}
+
 #[derive(Clone, Debug)]
 enum Unit {
     Depth1,
@@ -561,10 +632,12 @@ enum Unit {
     Comparisons,
     Shape(usize),
     Misc,
+    /// arithmetic on vec2 / vec3 values feeding a shape constructor
+    VectorOps,
 }
 
 fn units(_tier: Tier) -> Vec<Unit> {
-    let mut v = vec![Unit::Depth1, Unit::Depth2Unary, Unit::Arrays, Unit::Comparisons, Unit::Misc];
+    let mut v = vec![Unit::Depth1, Unit::Depth2Unary, Unit::Arrays, Unit::Comparisons, Unit::Misc, Unit::VectorOps];
     for i in 0..INFIX.len() {
         v.push(Unit::Depth2Infix(i));
     }
@@ -638,7 +711,7 @@ impl Check for C17 {
     }
     fn meta(&self, _tier: Tier) -> Meta {
         Meta {
-            rule: "case = script; (a) expressions generated exhaustively from the grammar E ::= x|y|z|int|float|(E op E)|f(E)|f(E,E)|-E|[E,..] to depth 2: every infix operator (+ - * / %) and every binary function (min max compare mix and or atan2) with tree/tree, tree/number and number/tree operands, every unary function and unary minus, arrays of trees in tree position, every depth-1 expression as the left or right operand of every operator with every leaf; comparisons (== != < > <= >=) between trees and between trees and numbers must be errors; (b) for 16 library shapes: map form with EVERY subset of defaulted fields omitted, positional form in EVERY argument order (unique-typed shapes), tree-first + map, chained, chained without map, two-tree form with number/array coercion, ordered positional form, int/float/array/vec spellings, unknown or missing fields must be errors; vec2->vec3 promotion with shape-specific default z; reducers with 1..=8 arguments and with an array; oracle: structural equality with the Tree built by the corresponding Rust calls".into(),
+            rule: "case = script; (a) expressions generated exhaustively from the grammar E ::= x|y|z|int|float|(E op E)|f(E)|f(E,E)|-E|[E,..] to depth 2: every infix operator (+ - * / %) and every binary function (min max compare mix and or atan2) with tree/tree, tree/number and number/tree operands, every unary function and unary minus, arrays of trees in tree position, every depth-1 expression as the left or right operand of every operator with every leaf; comparisons (== != < > <= >=) between trees and between trees and numbers must be errors; (b) for 16 library shapes: map form with EVERY subset of defaulted fields omitted, positional form in EVERY argument order (unique-typed shapes), tree-first + map, chained, chained without map, two-tree form with number/array coercion, ordered positional form, int/float/array/vec spellings, unknown or missing fields must be errors; vec2->vec3 promotion with shape-specific default z; reducers with 1..=8 arguments and with an array; (c) arithmetic on vec2 / vec3 values to depth 2 (+ - * / min max with vector/vector, vector/int, vector/float, int/vector, float/vector operands, unary minus, abs, sqrt) feeding a shape constructor; oracle: structural equality with the Tree built by the corresponding Rust calls".into(),
             bounds: "expression depth 2; 16 of the 26 shapes (one per call-form class)".into(),
             assumptions: vec!["number-only sub-expressions are left to rhai's own arithmetic and not generated".into()],
             crash_policy: CrashPolicy::Violation,
@@ -737,6 +810,17 @@ impl Check for C17 {
                 }
                 for s in bad {
                     expect_err(cx, &mut sub, &engine, &s, &format!("shape {}", sp[i].fname));
+                }
+            }
+            Unit::VectorOps => {
+                use fidget_shapes::*;
+                for e in vector_exprs(2) {
+                    let want: Tree = Circle { center: Vec2::new(e.val[0], e.val[1]), radius: 1.0 }.into();
+                    expect_ok(cx, &mut sub, &engine, &format!("circle(#{{ center: {}, radius: 1 }})", e.script), &want, "vector arithmetic (vec2)");
+                }
+                for e in vector_exprs(3) {
+                    let want: Tree = Sphere { center: Vec3::new(e.val[0], e.val[1], e.val[2]), radius: 1.0 }.into();
+                    expect_ok(cx, &mut sub, &engine, &format!("sphere(#{{ center: {}, radius: 1 }})", e.script), &want, "vector arithmetic (vec3)");
                 }
             }
             Unit::Misc => {
